@@ -95,6 +95,51 @@ def _functions_entered(fn, witnesses):
     return sorted(seen)
 
 
+def _run_direct(spec, made, out, wit_fail, t0):
+    """Shape Z: `direct()` returns dict(queries, unsat, sat=[{'args':…, 'label':…}],
+    unknown=[…], z3_s, samples=[…], twin_refuted).  sat models are replayed through fn."""
+    fn = made['fn']
+    r = made['direct']()
+    confirmed, unconfirmed = [], []
+    for v in r.get('sat', []):
+        kind, label, det = run_concrete(fn, v['args'])
+        rec = {'args': v['args'], 'label': label if kind == 'violation' else v['label'],
+               'symbolic_label': v['label'], 'detail': det, 'origin': 'solver'}
+        (confirmed if kind == 'violation' else unconfirmed).append(rec)
+    out['explore'] = {'leaves': r['queries'], 'holds': r['unsat'], 'skipped': r.get('skipped', 0),
+                      'unknown': len(r.get('unknown', [])), 'ignored': 0,
+                      'exhausted': not r.get('unknown') and not r.get('truncated'),
+                      'deadline_hit': bool(r.get('truncated')), 'symbolic_holds': r['unsat'],
+                      'z3_calls': r['queries'], 'z3_s': round(r.get('z3_s', 0.0), 3),
+                      'cpu_s': round(time.perf_counter() - t0, 2), 'wall_s': round(time.perf_counter() - t0, 2),
+                      'iterations': r['queries']}
+    out['samples'] = r.get('samples', [])[:6]
+    out['unknown_reasons'] = [str(u)[:120] for u in r.get('unknown', [])[:10]]
+    out['violations'] = wit_fail + confirmed
+    out['unconfirmed'] = unconfirmed
+    out['twin'] = {'refuted': bool(r.get('twin_refuted')), 'leaves': r.get('twin_queries', 0), 'cpu_s': 0}
+    out['vacuous'] = r['unsat'] == 0
+    out['cross_checked'] = r.get('cross_checked')
+    if out['violations']:
+        out['status'] = 'violation'
+    elif unconfirmed:
+        out['status'] = 'harness_error'
+        out['note'] = 'sat model does not reproduce concretely'
+    elif r.get('error'):
+        out['status'] = 'harness_error'
+        out['note'] = r['error']
+    elif not r.get('twin_refuted'):
+        out['status'] = 'harness_error'
+        out['note'] = 'reachability twin was not refuted'
+    elif r.get('unknown') or r.get('truncated'):
+        out['status'] = 'inconclusive'
+        out['note'] = '%d queries unknown/timeout' % len(r.get('unknown', []))
+    else:
+        out['status'] = 'holds'
+    out['wall_s'] = round(time.perf_counter() - t0, 2)
+    return out
+
+
 def run_job(spec):
     """Worker entry point (fresh process).  Returns a JSON-able dict."""
     import vf  # noqa: F401  (sys.path)
@@ -125,6 +170,9 @@ def run_job(spec):
         out['witnesses'] = len(wit)
         out['witnesses_holding'] = nwit_holds
         out['functions_entered'] = _functions_entered(fn, wit[:8]) if wit else []
+        # 2'. direct solver job (shape Z): the harness talks to z3 itself
+        if made.get('direct') is not None:
+            return _run_direct(spec, made, out, wit_fail, t0)
         # 2. symbolic exploration
         res = sx.explore(fn, budget_s=spec['budget'], per_path_timeout=spec['per_path_timeout'],
                          seed=int(os.environ.get('VERIF_SEED', '0') or 0))
